@@ -205,6 +205,12 @@ def _dict(ex, e, args, kwargs, p):
         return [(NIL_DICT, p)]
     if len(args) == 1 and not kwargs:
         return [(app("dict_of", asV(args[0])), p)]
+    if not args and kwargs and "__star__" not in kwargs:
+        # dict(a=x, b=y): the display {"a": x, "b": y} (keywords keep their written order)
+        t = NIL_DICT
+        for k, v in kwargs.items():
+            t = app("dict_set", t, StrV(k), asV(v))
+        return [(t, p)]
     raise Unsupported("dict(...) form", e)
 
 
